@@ -58,6 +58,7 @@ class Link:
         self.t_accept = None
         self.made = False  # protocol.connection_made delivered
         self.lost = False  # protocol.connection_lost delivered
+        self.fin_delivered = False  # the peer's FIN has reached the client: nothing can follow it
         self.client_closed = False  # client side called close()/abort() or was force-closed
         self.server_closed = False  # server side sent FIN or RST
         self.blackhole = False
@@ -92,6 +93,11 @@ class Link:
             return
         if tr is None or tr._conn_lost or tr._closing:
             return
+        if self.fin_delivered:
+            # the peer's FIN has been delivered: bytes "sent" in that same instant but ordered behind it do not exist on a
+            # TCP stream (a scenario step racing a delayed close; feeding data after EOF is impossible on a real socket)
+            self.net.trace.count("net.data_after_fin_dropped")
+            return
         self.net.trace.add("rx.chunk", link=self.id, n=len(chunk), data=chunk.hex())
         tr._data_from_peer(chunk)
 
@@ -121,6 +127,7 @@ class Link:
         if self.blackhole or tr is None or tr._conn_lost or tr._closing:
             return
         self.net.trace.add("rx.fin", link=self.id)
+        self.fin_delivered = True
         tr._eof_from_peer()
 
     def rst(self, err: str = "ECONNRESET") -> None:
